@@ -20,8 +20,9 @@ var getBig = []int{65536, 65537, 70000}
 // big controls whether the ~64 KiB threshold sizes may be drawn.
 func DrawConfig(t *rapid.T, label string, big bool) Config {
 	c := Config{
-		Client: rapid.Bool().Draw(t, label+".client"),
-		Op:     rapid.SampledFrom(ops).Draw(t, label+".op"),
+		Client:   rapid.Bool().Draw(t, label+".client"),
+		Extended: rapid.IntRange(0, 2).Draw(t, label+".extended") == 0,
+		Op:       rapid.SampledFrom(ops).Draw(t, label+".op"),
 	}
 	c.Ctor = rapid.SampledFrom([]string{"bufsize", "bufsize", "buffer", "buffer", "size", "size", "get", "new"}).Draw(t, label+".ctor")
 	useBig := big && rapid.IntRange(0, 9).Draw(t, label+".big") == 0
